@@ -171,6 +171,14 @@ def parse_remove(kind, param, body, problems):
             if mm.group(3) == 'removeReference' and (lister, kind) in REF:
                 plan.append((REF[(lister, kind)], 'EraseFirst'))
                 continue
+        mm = re.match(r'for \(auto& (\w+) : (\w+)\) \{ auto (\w+) = \1->getReferences<(\w+)>\(\); '
+                      r'auto (\w+) = std::count\(\3\.begin\(\), \3\.end\(\), %s\); '
+                      r'for \(; \5 > 0; --\5\) \{ \1->removeReference\(%s\); \} \}$' % (param, param), st)
+        if mm and mm.group(2) in MEMBER_LISTS and KINDS.get(mm.group(4)) == kind:
+            lister = MEMBER_LISTS[mm.group(2)]
+            if (lister, kind) in REF:
+                plan.append((REF[(lister, kind)], 'EraseAll'))
+                continue
         mm = re.match(r'for \(auto& (\w+) : (\w+)\) \{ if \(\1->getReference<(\w+)>\(\) == %s\) '
                       r'\{ \1->removeReference<\3>\(\); \} \}$' % param, st)
         if mm and mm.group(2) in MEMBER_LISTS and KINDS.get(mm.group(3)) == kind:
